@@ -4,6 +4,9 @@ use tokio::net::{UnixListener, UnixStream};
 #[cfg(any(feature = "async-std-runtime", feature = "async-dispatcher-runtime"))]
 use async_std::os::unix::net::{UnixListener, UnixStream};
 
+#[cfg(zmq_verif)]
+use zmq_simrt::os::unix::net::{UnixListener, UnixStream};
+
 use super::make_framed;
 use super::AcceptStopHandle;
 use crate::async_rt;
@@ -41,6 +44,8 @@ where
     let listener = UnixListener::bind(path)?;
     #[cfg(any(feature = "async-std-runtime", feature = "async-dispatcher-runtime"))]
     let listener = UnixListener::bind(path).await?;
+    #[cfg(zmq_verif)]
+    let listener = UnixListener::bind(path).await?;
 
     let resolved_addr = listener.local_addr()?;
     let resolved_addr = resolved_addr.as_pathname().map(|a| a.to_owned());
@@ -69,6 +74,8 @@ where
             use async_std::fs::remove_file;
             #[cfg(feature = "tokio-runtime")]
             use tokio::fs::remove_file;
+            #[cfg(zmq_verif)]
+            use zmq_simrt::fs::remove_file;
 
             if let Err(err) = remove_file(&listener_addr).await {
                 log::warn!(
